@@ -340,6 +340,17 @@ func checkPermOn(c PermCase, a *sm.ASpec, spec *core.Spec) (v ev.Verdict) {
 			}
 		} else {
 			v.Class("no-bindings-returned")
+			// "a failing action or a rejecting guard leaves them in place
+			// as well": in the map the code was given, which native code
+			// may have worked on
+			if c.InPlace && c.Native {
+				v.Class("in-place-native-failed-or-declined")
+				if checkPermanentsIn(untyped(c), given, "the bindings given to an action that failed or returned none", &v) && real != nil {
+					if !reflect.DeepEqual(given["big!"], real) {
+						v.Failf("the bindings given to an action that failed: permanent binding \"big!\" was %#v and is now %#v", real, given["big!"])
+					}
+				}
+			}
 		}
 		return
 	}
@@ -357,8 +368,16 @@ func checkPermOn(c PermCase, a *sm.ASpec, spec *core.Spec) (v ev.Verdict) {
 	got := sm.Observe(stride, serr, nil)
 	allowed := sm.RefStep(a, "start", c.Bs, nil)
 	if ok, keys := sm.Allowed(got, allowed); !ok {
-		v.Failf("step gave %s; allowed %s", got.Key(), strings.Join(keys, " || "))
-		return
+		// native code that works on the map it is given and then fails or
+		// declines leaves its other changes behind, and they can decide
+		// which branch is taken next; the step rule does not describe
+		// that - only the permanent bindings are judged (below)
+		inPlaceNative := c.InPlace && ((c.Native && c.Action != nil && c.Action.Run(c.Bs).Kind != "ok") || (c.GuardNative && c.Guard != nil))
+		if !inPlaceNative {
+			v.Failf("step gave %s; allowed %s", got.Key(), strings.Join(keys, " || "))
+			return
+		}
+		v.Class("in-place-native-failed-or-declined")
 	}
 	route := allowed[0].Route
 	v.Class("route:" + strings.Split(route, ":")[0])
